@@ -1309,6 +1309,45 @@ theorem miObjCall_selfN_oob_witness :
     ∧ miObjCall rows 2 2 2 32 false (some (1/2)) (some 0) [[some 0, some 2], [some 1, some 2]] = .safe := by
   decide +kernel
 
+
+/-! ## the histogram range as the sources compute it -/
+
+/-- in the current source `_test_mutual_information` takes `range_min` / `range_max` as the
+minimum / maximum over **both** arrays and `scaling = 1/(range_max - range_min)`;
+`_cython_calculate_mutual_information` takes them from the transposed copy that reaches the kernel
+(seeded change C20-5, `surrogates.max()` inside `range_min`, breaks the first line) -/
+theorem range_terms_agree :
+    tmi_range_min = ("np.min", [("original_data", "min"), ("surrogates", "min")])
+    ∧ tmi_range_max = ("np.max", [("original_data", "max"), ("surrogates", "max")])
+    ∧ tmi_scaling = "1.0 / (range_max - range_min)"
+    ∧ mi_anomaly_last = "anomaly.T.copy()"
+    ∧ mi_range_min = "float(anomaly.min())" ∧ mi_range_max = "float(anomaly.max())"
+    ∧ mi_scaling = "1.0 / (range_max - range_min)" := by
+  refine ⟨by decide, by decide, by decide, by decide, by decide, by decide, by decide⟩
+
+/-- the model of `tmiCall` *is* the kernel verdict for the minimum / maximum over both arrays
+(after the wrapper's rejections) -/
+theorem tmiCall_eq_kernelVerdict (N T : Nat) (nb : Int) (dO dS : Data) (h1 : 1 ≤ nb)
+    (h2 : nb < (2 : Int) ^ 31) (h3 : N * T ≠ 0) :
+    tmiCall N T N T nb dO dS
+      = tmiKernelVerdict (optMin (dO.flat ++ dS.flat)) (optMax (dO.flat ++ dS.flat)) N T nb dO dS := by
+  unfold tmiCall tmiKernelVerdict
+  rw [if_neg (by omega), if_neg (by simp), if_neg (by omega), if_neg h3]
+
+/-- with the range read off the generated terms the kernel is safe on data where the surrogates
+reach below the original's minimum, and a `range_min` that leaves the surrogates' minimum out (the
+shape of seeded change C20-5: `np.min((original_data.min(), surrogates.max()))`) is out of bounds on
+the same data — a negative bin number -/
+theorem tmi_range_witness :
+    let dO : Data := [[some 0, some 1]]
+    let dS : Data := [[some (-2), some 1]]
+    let r := rangeFrom dO dS tmi_range_min.2 tmi_range_max.2
+    let r' := rangeFrom dO dS [("original_data", "min"), ("surrogates", "max")] tmi_range_max.2
+    tmiKernelVerdict r.1 r.2 1 2 4 dO dS = .safe
+    ∧ r = (optMin (dO.flat ++ dS.flat), optMax (dO.flat ++ dS.flat))
+    ∧ tmiKernelVerdict r'.1 r'.2 1 2 4 dO dS = .oob := by
+  decide +kernel
+
 end Pyunicorn.Access
 
 
